@@ -161,6 +161,10 @@ func main() {
 		for _, b := range []string{"badger", "pathbadger"} {
 			rn.inflightCase(i, b, st)
 			r.Eval(1)
+			if i%2 == 0 {
+				rn.inflightDupCase(i, b, st)
+				r.Eval(1)
+			}
 		}
 		rn.merge(st)
 	})
